@@ -1,3 +1,494 @@
-import MCHap.Model.Atomize
+import MCHap.Proofs.VcfAtomize
+import Mathlib.Tactic
+
+/-!
+# C20 — atomize emits the per-SNV projection of every haplotype record
+
+Theorems over `MCHap/Model/Atomize.lean`.  `block r` is the model of `format_vcf_snv_block`: `.ok none` for a
+record without SNVs, `.ok (some lines)` with one line per SNVPOS entry, or the exception that aborts the program.
+
+* `pos_spec`, `block_gts`, `gt_projection`: line `k` sits at `POS + SNVPOS[k] − 1`, carries `PS = POS`, and its
+  sample GTs are the haplotype GTs projected through the site's allele numbers (`.` stays `.`);
+* `numbering_first_appearance`, `alleles_first_appearance`: site alleles are numbered by first appearance among
+  REF, ALT1, ALT2, …, so REF's base is allele 0, and the printed REF/ALT bases are exactly the numbered ones;
+* `marginal_spec`, `ac_marginal`, `acp_marginal`, `acp_sums_to_ploidy`: AC / ACP / DS are the haplotype-level
+  counts marginalised to the site;
+* totality: `block_no_snv`; `block_total_partial` carries the exact excluded shapes as hypotheses
+  (ALT present — F8; every site has an alternative base — F9; posterior counts without missing entries);
+  `no_alt_crash`, `monomorphic_crash` prove that the excluded shapes do abort the program (the code as it is).
+-/
 namespace MCHap.C20
+open MCHap MCHap.Atomize
+
+/-! ## unfolding `block` -/
+
+/-- every successful run of `block` on a record with SNVs went through all five fallible steps -/
+theorem block_ok_unfold (r : HapRecord) (lines : List SnvLine) (h : block r = .ok (some lines)) :
+    ∃ snvpos hs gts counts acp dps,
+      r.snvpos = some snvpos ∧ haplotypeSnvs r snvpos = .ok hs ∧
+      mapE (fun siteIdx => mapE (fun s => sampleSnvGT siteIdx s.gt) r.samples)
+        (snvIndices hs snvpos.length) = .ok gts ∧
+      mapE (sampleCounts hs.length) r.samples = .ok counts ∧
+      mapE (fun siteIdx => mapE (fun sc => sampleSiteACP siteIdx sc.1.gt.length sc.2) (r.samples.zip counts))
+        (snvIndices hs snvpos.length) = .ok acp ∧
+      (List.range snvpos.length).any (fun k => (formatSnvAlleles hs k).2.length == 0) = false ∧
+      depths snvpos.length r.samples = .ok dps ∧
+      lines = blockLines r snvpos hs gts acp dps := by
+  unfold block at h
+  split at h
+  · simp at h
+  · rename_i snvpos hsp
+    split at h
+    · simp at h
+    · rename_i hs hhs
+      simp only at h
+      split at h
+      · simp at h
+      · rename_i gts hgts
+        split at h
+        · simp at h
+        · rename_i counts hcounts
+          split at h
+          · simp at h
+          · rename_i acp hacp
+            split at h
+            · simp at h
+            · rename_i hmono
+              split at h
+              · simp at h
+              · rename_i dps hdps
+                refine ⟨snvpos, hs, gts, counts, acp, dps, hsp, hhs, hgts, hcounts, hacp, ?_, hdps, ?_⟩
+                · simpa using hmono
+                · simp only [Except.ok.injEq, Option.some.injEq] at h
+                  exact h.symm
+
+/-! ## POS, PS, GT -/
+
+/-- one line per SNVPOS entry, at `POS + SNVPOS − 1`, with `PS` = the haplotype record's POS -/
+theorem pos_spec (r : HapRecord) (lines : List SnvLine) (h : block r = .ok (some lines)) :
+    ∃ snvpos, r.snvpos = some snvpos ∧ lines.length = snvpos.length ∧
+      ∀ (k p : ℕ), snvpos[k]? = some p →
+        ∃ line : SnvLine, lines[k]? = some line ∧ line.pos = r.pos + p - 1 ∧ line.ps = r.pos := by
+  obtain ⟨snvpos, hs, gts, counts, acp, dps, hsp, _, _, _, _, _, _, hl⟩ := block_ok_unfold r lines h
+  refine ⟨snvpos, hsp, by simp [hl, blockLines], ?_⟩
+  intro k p hk
+  have hlt : k < snvpos.length := (List.getElem?_eq_some_iff.mp hk).1
+  subst hl
+  simp only [blockLines, List.getElem?_map, List.getElem?_range hlt, Option.map_some]
+  refine ⟨_, rfl, ?_, rfl⟩
+  simp [List.getD_eq_getElem?_getD, hk]
+
+/-- `get_sample_snv_GT` on one sample and site is the projection of the haplotype GT through the site's
+    allele numbers; it raises exactly when the GT names an unlisted haplotype -/
+theorem gt_projection (siteIdx : List ℕ) : ∀ (gt : List (Option ℕ)) (g : List (Option ℕ)),
+    sampleSnvGT siteIdx gt = .ok g ↔
+      (∀ h, some h ∈ gt → h < siteIdx.length) ∧
+      g = gt.map (Option.map (fun h => siteIdx.getD h 0))
+  | [], g => by
+    simp only [sampleSnvGT, mapE]
+    constructor
+    · intro h; simp at h; simp [h]
+    · intro h; simp [h.2]
+  | a :: t, g => by
+    have ih := gt_projection siteIdx t
+    unfold sampleSnvGT at ih ⊢
+    constructor
+    · intro h
+      obtain ⟨b, bt, hb, ht, rfl⟩ := mapE_ok_cons h
+      obtain ⟨h1, h2⟩ := (ih bt).mp ht
+      cases a with
+      | none =>
+        simp only [Except.ok.injEq] at hb
+        subst hb
+        exact ⟨fun x hx => h1 x (by simpa using hx), by simp [h2]⟩
+      | some x =>
+        simp only at hb
+        split at hb
+        · rename_i y hy
+          simp only [Except.ok.injEq] at hb
+          subst hb
+          have hlt : x < siteIdx.length := (List.getElem?_eq_some_iff.mp hy).1
+          refine ⟨?_, ?_⟩
+          · intro z hz
+            rcases List.mem_cons.mp hz with hz | hz
+            · simp at hz; subst hz; exact hlt
+            · exact h1 z hz
+          · simp [h2, List.getD_eq_getElem?_getD, hy]
+        · simp at hb
+    · rintro ⟨h1, rfl⟩
+      have ht := (ih _).mpr ⟨fun x hx => h1 x (by simp [hx]), rfl⟩
+      cases a with
+      | none => simp [mapE, ht]
+      | some x =>
+        have hlt : x < siteIdx.length := h1 x (by simp)
+        simp [mapE, ht, List.getElem?_eq_getElem hlt, List.getD_eq_getElem?_getD]
+
+/-- … and the block prints exactly that for every site and sample -/
+theorem block_gts (r : HapRecord) (lines : List SnvLine) (h : block r = .ok (some lines)) :
+    ∃ snvpos hs, r.snvpos = some snvpos ∧ haplotypeSnvs r snvpos = .ok hs ∧
+      ∀ k line, k < snvpos.length → lines[k]? = some line →
+        line.gts = r.samples.map (fun s =>
+          s.gt.map (Option.map (fun h => (indexLoop (column hs k) []).getD h 0))) := by
+  obtain ⟨snvpos, hs, gts, counts, acp, dps, hsp, hhs, hgts, _, _, _, _, hl⟩ := block_ok_unfold r lines h
+  refine ⟨snvpos, hs, hsp, hhs, ?_⟩
+  intro k line hk hline
+  subst hl
+  simp only [blockLines, List.getElem?_map, List.getElem?_range hk, Option.map_some,
+    Option.some.injEq] at hline
+  subst hline
+  simp only
+  -- the k-th entry of `gts` is the per-sample traversal at site k
+  have hidx : (snvIndices hs snvpos.length)[k]? = some (indexLoop (column hs k) []) := by
+    simp [snvIndices, List.getElem?_map, List.getElem?_range hk]
+  obtain ⟨gk, hgk, hmap⟩ := mapE_getElem? hgts k _ hidx
+  rw [List.getD_eq_getElem?_getD, hgk, Option.getD_some]
+  -- each sample's entry
+  apply List.ext_getElem?
+  intro i
+  rw [List.getElem?_map]
+  cases hs_i : r.samples[i]? with
+  | none =>
+    have : gk.length = r.samples.length := mapE_length hmap
+    have hlen : r.samples.length ≤ i := by
+      by_contra hcon
+      push Not at hcon
+      simp [List.getElem?_eq_getElem hcon] at hs_i
+    simp [List.getElem?_eq_none (by omega : gk.length ≤ i)]
+  | some s =>
+    obtain ⟨g, hg, hgs⟩ := mapE_getElem? hmap i s hs_i
+    rw [hg]
+    simp [((gt_projection _ _ _).mp hgs).2]
+
+/-! ## numbering -/
+
+/-- `get_haplotype_snv_indices` numbers the bases of a site by first appearance among REF, ALT1, ALT2, …:
+    (1) one number per haplotype; (2) the numbered bases are pairwise distinct; (3) number ↦ base is what
+    `format_snv_alleles` prints; (4) a number is used only after all smaller ones — so REF's base is 0 and a
+    base first seen earlier has the smaller number; (5) two haplotypes share a number iff they share the base -/
+theorem numbering_first_appearance (col : List Char) :
+    (indexLoop col []).length = col.length ∧
+    (firstAppear col).Nodup ∧
+    (∀ (h : ℕ) (c : Char), col[h]? = some c →
+      ∃ i, (indexLoop col [])[h]? = some i ∧ (firstAppear col)[i]? = some c) ∧
+    (∀ (h i a : ℕ), (indexLoop col [])[h]? = some i → a < i →
+      ∃ h', h' < h ∧ (indexLoop col [])[h']? = some a) ∧
+    (∀ (h₁ h₂ i₁ i₂ : ℕ) (c₁ c₂ : Char), col[h₁]? = some c₁ → col[h₂]? = some c₂ →
+      (indexLoop col [])[h₁]? = some i₁ → (indexLoop col [])[h₂]? = some i₂ → (i₁ = i₂ ↔ c₁ = c₂)) := by
+  obtain ⟨h1, _, h3, h4⟩ := indexLoop_spec col [] (by simp)
+  refine ⟨indexLoop_length col [], h1, h3, ?_, ?_⟩
+  · intro h i a hi ha
+    rcases h4 h i a hi ha with hl | hr
+    · simp at hl
+    · exact hr
+  · intro h₁ h₂ i₁ i₂ c₁ c₂ hc₁ hc₂ hi₁ hi₂
+    obtain ⟨j₁, hj₁, hf₁⟩ := h3 h₁ c₁ hc₁
+    obtain ⟨j₂, hj₂, hf₂⟩ := h3 h₂ c₂ hc₂
+    rw [hi₁] at hj₁; rw [hi₂] at hj₂
+    simp only [Option.some.injEq] at hj₁ hj₂
+    subst hj₁ hj₂
+    constructor
+    · intro e; subst e; rw [hf₁] at hf₂; simpa using hf₂
+    · intro e; subst e
+      have hn : (firstAppear col).Nodup := h1
+      obtain ⟨l₁, e₁⟩ := List.getElem?_eq_some_iff.mp hf₁
+      obtain ⟨l₂, e₂⟩ := List.getElem?_eq_some_iff.mp hf₂
+      exact (List.Nodup.getElem_inj_iff hn).mp (e₁.trans e₂.symm)
+
+/-- the REF base printed for a site is the reference haplotype's base there (allele 0), and the ALT bases are
+    the remaining numbered bases in order -/
+theorem alleles_first_appearance (refRow : List Char) (rest : List (List Char)) (k : ℕ) :
+    (formatSnvAlleles (refRow :: rest) k).1 = refRow.getD k ' ' ∧
+    firstAppear (column (refRow :: rest) k) =
+      (formatSnvAlleles (refRow :: rest) k).1 :: (formatSnvAlleles (refRow :: rest) k).2 := by
+  have hcol : column (refRow :: rest) k = refRow.getD k ' ' :: column rest k := by simp [column]
+  have hh := firstAppear_head (refRow.getD k ' ') (column rest k)
+  rw [← hcol] at hh
+  unfold formatSnvAlleles
+  cases hfa : firstAppear (column (refRow :: rest) k) with
+  | nil => rw [hfa] at hh; simp at hh
+  | cons x t =>
+    rw [hfa] at hh
+    simp only [List.head?_cons, Option.some.injEq] at hh
+    simp [hh]
+
+/-! ## marginal counts -/
+
+/-- `marginal idx count a = Σ_{h : site(h) = a} count(h)` -/
+theorem marginal_spec {α : Type} [AddCommMonoid α] (siteIdx : List ℕ) (counts : List α) (a : ℕ) :
+    marginal siteIdx counts a =
+      ((siteIdx.zip counts).map (fun hc => if hc.1 = a then hc.2 else 0)).sum :=
+  marginal_eq_sum siteIdx counts a
+
+/-- INFO/AC of a site: entry `i` is the marginal count of allele `i + 1`, and over all alleles of the site
+    (REF included) the marginal counts add up to the number of called haplotype copies -/
+theorem ac_marginal (siteIdx : List ℕ) (hapCounts : List ℕ) (nAlts : ℕ)
+    (hlen : siteIdx.length = hapCounts.length) (hidx : ∀ x ∈ siteIdx, x ≤ nAlts) :
+    siteAC siteIdx hapCounts nAlts = (List.range nAlts).map (fun i => marginal siteIdx hapCounts (i + 1)) ∧
+    ((List.range (nAlts + 1)).map (fun a => marginal siteIdx hapCounts a)).sum = hapCounts.sum := by
+  refine ⟨rfl, ?_⟩
+  rw [sum_marginal siteIdx hapCounts (nAlts + 1)]
+  · congr 1
+    exact List.map_snd_zip (le_of_eq hlen.symm)
+  · intro hc hmem
+    exact Nat.lt_succ_of_le (hidx hc.1 (List.of_mem_zip hmem).1)
+
+/-- FORMAT/ACP-derived values of one sample and site: the per-haplotype posterior counts marginalised to the
+    site's alleles, rescaled so that they add up to the ploidy (identity when they already do) -/
+theorem acp_marginal (siteIdx : List ℕ) (ploidy : ℕ) (c : List ℚ) (v : List ℚ)
+    (h : sampleSiteACP siteIdx ploidy (some c) = .ok (some v)) :
+    let D := ((List.range 4).map (fun a => marginal siteIdx c a)).sum
+    D ≠ 0 ∧ v = (List.range 4).map (fun a => marginal siteIdx c a / D * ploidy) ∧
+    (D = ploidy → v = (List.range 4).map (fun a => marginal siteIdx c a)) := by
+  unfold sampleSiteACP at h
+  simp only at h
+  split at h
+  · simp at h
+  · split at h
+    · simp at h
+    · rename_i hD
+      simp only [Except.ok.injEq, Option.some.injEq] at h
+      have hsum : List.foldr (· + ·) 0 ((List.range 4).map (fun a => marginal siteIdx c a)) =
+          ((List.range 4).map (fun a => marginal siteIdx c a)).sum := List.sum_eq_foldr.symm
+      rw [hsum] at hD h
+      refine ⟨hD, ?_, ?_⟩
+      · rw [← h, List.map_map]; rfl
+      · intro hp
+        rw [← h, List.map_map]
+        apply List.map_congr_left
+        intro a _
+        simp only [Function.comp]
+        rw [← hp]
+        field_simp
+
+/-- non-vacuity: tetraploid sample, three listed haplotypes with bases C, G, C at the site -/
+example : sampleSiteACP [0, 1, 0] 4 (some [(3/2 : ℚ), 3/2, 1]) = .ok (some [5/2, 3/2, 0, 0]) := by
+  simp [sampleSiteACP, marginal, List.range, List.range.loop]
+  norm_num
+
+/-- … they add up to the sample's ploidy -/
+theorem acp_sums_to_ploidy (siteIdx : List ℕ) (ploidy : ℕ) (c : List ℚ) (v : List ℚ)
+    (h : sampleSiteACP siteIdx ploidy (some c) = .ok (some v)) : v.sum = ploidy := by
+  obtain ⟨hD, hv, _⟩ := acp_marginal siteIdx ploidy c v h
+  rw [hv]
+  have : ((List.range 4).map (fun a => marginal siteIdx c a /
+        ((List.range 4).map (fun a => marginal siteIdx c a)).sum * (ploidy : ℚ))) =
+      ((List.range 4).map (fun a => marginal siteIdx c a *
+        ((ploidy : ℚ) / ((List.range 4).map (fun a => marginal siteIdx c a)).sum))) := by
+    apply List.map_congr_left
+    intro a _
+    ring
+  rw [this, List.sum_map_mul_right]
+  field_simp
+
+/-! ## totality -/
+
+/-- a record without SNVs (`SNVPOS=.`) is skipped -/
+theorem block_no_snv (r : HapRecord) (h : r.snvpos = none) : block r = .ok none := by
+  unfold block; rw [h]
+
+/-- candidate defect F8, as the code is: a record with SNVs and no ALT aborts the program with `TypeError` -/
+theorem no_alt_crash (r : HapRecord) (snvpos : List ℕ) (hs : r.snvpos = some snvpos) (ha : r.alts = none) :
+    block r = .error .typeError := by
+  unfold block; rw [hs]; simp [haplotypeSnvs, ha]
+
+/-- candidate defect F9, as the code is: a record with a site at which no listed haplotype carries an
+    alternative base is never answered with lines — the program aborts -/
+theorem monomorphic_crash (r : HapRecord) (snvpos : List ℕ) (hs : List (List Char))
+    (hsp : r.snvpos = some snvpos) (hhs : haplotypeSnvs r snvpos = .ok hs)
+    (hmono : ∃ k, k < snvpos.length ∧ (formatSnvAlleles hs k).2 = []) :
+    ∃ e, block r = .error e := by
+  cases hb : block r with
+  | error e => exact ⟨e, rfl⟩
+  | ok o =>
+    cases o with
+    | none => unfold block at hb; rw [hsp] at hb; simp only [hhs] at hb; split at hb <;> (try split at hb) <;>
+                (try split at hb) <;> (try split at hb) <;> (try split at hb) <;> simp at hb
+    | some lines =>
+      obtain ⟨sp', hs', _, _, _, _, hsp', hhs', _, _, _, hm, _, _⟩ := block_ok_unfold r lines hb
+      rw [hsp] at hsp'; cases hsp'
+      rw [hhs] at hhs'; cases hhs'
+      obtain ⟨k, hk, he⟩ := hmono
+      have : (List.range snvpos.length).any (fun k => (formatSnvAlleles hs k).2.length == 0) = true := by
+        rw [List.any_eq_true]
+        exact ⟨k, List.mem_range.mpr hk, by simp [he]⟩
+      rw [this] at hm; cases hm
+
+/-- the outcome of a run as a comparable value: 1/2/3 = TypeError/IndexError/ValueError, 10 = skipped,
+    100 + n = n lines -/
+def outcome (x : Except Err (Option (List SnvLine))) : ℕ :=
+  match x with
+  | .error .typeError => 1
+  | .error .indexError => 2
+  | .error .valueError => 3
+  | .ok none => 10
+  | .ok (some l) => 100 + l.length
+
+/-- minimal records (1 sample, diploid): no ALT with one SNV; one ALT with a site it does not touch -/
+def recNoAlt : HapRecord :=
+  { pos := 10, id := some "x", ref := "ACGT".toList, alts := none, snvpos := some [2],
+    samples := [{ gt := [some 0, some 0], sq := some 9, acp := none, afp := none, snvdp := none }] }
+
+def recMono : HapRecord :=
+  { pos := 10, id := some "x", ref := "ACGT".toList, alts := some ["AGGT".toList], snvpos := some [2, 4],
+    samples := [{ gt := [some 0, some 1], sq := some 9, acp := none, afp := none, snvdp := none }] }
+
+def recGood : HapRecord :=
+  { pos := 10, id := some "x", ref := "ACGT".toList, alts := some ["AGGT".toList, "ACGA".toList],
+    snvpos := some [2, 4],
+    samples := [{ gt := [some 0, some 1, some 2, none], sq := some 9, acp := none,
+                  afp := none, snvdp := none }] }
+
+/-- the `TypeError` of F8 and the `IndexError` of F9 -/
+example : outcome (block recNoAlt) = 1 := by decide
+example : outcome (block recMono) = 2 := by decide
+
+/-- well-formedness of the posterior counts a sample carries: no missing entry, at most one per listed haplotype -/
+def CountsOK (nHap : ℕ) (s : Sample) : Prop :=
+  (∀ c, s.acp = some c → c.length ≤ nHap ∧ ∀ x ∈ c, x ≠ none) ∧
+  (s.acp = none → ∀ f, s.afp = some f → f.length ≤ nHap ∧ ∀ x ∈ f, x ≠ none)
+
+theorem sampleCounts_total (nHap : ℕ) (s : Sample) (h : CountsOK nHap s) :
+    ∃ o, sampleCounts nHap s = .ok o := by
+  unfold sampleCounts
+  have hany : ∀ c : List (Option ℚ), (∀ x ∈ c, x ≠ none) → c.any Option.isNone = false := by
+    intro c hc
+    rw [Bool.eq_false_iff]
+    intro hcon
+    rw [List.any_eq_true] at hcon
+    obtain ⟨x, hx, hn⟩ := hcon
+    cases x with
+    | none => exact hc none hx rfl
+    | some _ => simp at hn
+  cases hacp : s.acp with
+  | some c =>
+    obtain ⟨hl, hn⟩ := h.1 c hacp
+    have : ¬ c.length > nHap := by omega
+    simp [hany c hn, this]
+  | none =>
+    cases hafp : s.afp with
+    | none => simp
+    | some f =>
+      obtain ⟨hl, hn⟩ := h.2 hacp f hafp
+      have : ¬ f.length > nHap := by omega
+      simp [hany f hn, this]
+
+/-- **Totality, partial on the current tree.**  A record with SNVs is answered with one line per SNVPOS entry
+    provided that: ALT is present (excludes F8), every SNVPOS entry lies inside every listed haplotype, every GT
+    allele is a listed haplotype, posterior counts have no missing entry (excludes the AF0 records), a site has at
+    most four distinct bases, **every site has an alternative base among the listed haplotypes** (excludes F9),
+    and FORMAT/SNVDP has one value per SNV. -/
+theorem block_total_partial (r : HapRecord) (snvpos : List ℕ) (alts : List (List Char))
+    (hsp : r.snvpos = some snvpos) (halts : r.alts = some alts)
+    (hpos : ∀ hap ∈ r.ref :: alts, ∀ p ∈ snvpos, 1 ≤ p ∧ p ≤ hap.length)
+    (hgt : ∀ s ∈ r.samples, ∀ h, some h ∈ s.gt → h ≤ alts.length)
+    (hcounts : ∀ s ∈ r.samples, CountsOK (alts.length + 1) s)
+    (hdp : ∀ s ∈ r.samples, ∀ d, s.snvdp = some d → d.length = snvpos.length)
+    (hfour : ∀ hs, haplotypeSnvs r snvpos = .ok hs → ∀ k, k < snvpos.length →
+      (firstAppear (column hs k)).length ≤ 4)
+    (hpoly : ∀ hs, haplotypeSnvs r snvpos = .ok hs → ∀ k, k < snvpos.length →
+      (formatSnvAlleles hs k).2 ≠ []) :
+    ∃ lines, block r = .ok (some lines) ∧ lines.length = snvpos.length := by
+  -- step 1: get_haplotype_snvs
+  have hbases : ∀ hap ∈ r.ref :: alts, ∃ row, basesAt hap snvpos = .ok row := by
+    intro hap hhap
+    unfold basesAt
+    apply mapE_total
+    intro p hp
+    obtain ⟨h1, h2⟩ := hpos hap hhap p hp
+    have hp0 : ¬ p = 0 := by omega
+    have hlt : p - 1 < hap.length := by omega
+    exact ⟨hap[p - 1], by simp [hp0, List.getElem?_eq_getElem hlt]⟩
+  obtain ⟨hs, hhs⟩ : ∃ hs, haplotypeSnvs r snvpos = .ok hs := by
+    unfold haplotypeSnvs; rw [halts]; exact mapE_total _ hbases
+  have hhslen : hs.length = alts.length + 1 := by
+    have h' : mapE (fun h => basesAt h snvpos) (r.ref :: alts) = .ok hs := by
+      have := hhs
+      unfold haplotypeSnvs at this
+      rw [halts] at this
+      exact this
+    simpa using mapE_length h'
+  -- the allele numbers of a site: one per haplotype, each < number of distinct bases ≤ 4
+  have hsite : ∀ siteIdx ∈ snvIndices hs snvpos.length,
+      siteIdx.length = hs.length ∧ ∀ a ∈ siteIdx, a < 4 := by
+    intro siteIdx hmem
+    simp only [snvIndices, List.mem_map, List.mem_range] at hmem
+    obtain ⟨k, hk, rfl⟩ := hmem
+    refine ⟨by simp [indexLoop_length, column], ?_⟩
+    intro a ha
+    obtain ⟨j, hj⟩ := List.getElem?_of_mem ha
+    obtain ⟨_, _, h3, _⟩ := numbering_first_appearance (column hs k)
+    have hjlt : j < (column hs k).length := by
+      have := (List.getElem?_eq_some_iff.mp hj).1
+      simpa [indexLoop_length] using this
+    obtain ⟨i, hi, hfa⟩ := h3 j _ (List.getElem?_eq_getElem hjlt)
+    rw [hj] at hi
+    simp only [Option.some.injEq] at hi
+    subst hi
+    have := (List.getElem?_eq_some_iff.mp hfa).1
+    have h4 := hfour hs hhs k hk
+    omega
+  -- step 2: get_sample_snv_GT
+  obtain ⟨gts, hgts⟩ : ∃ gts, mapE (fun siteIdx => mapE (fun s => sampleSnvGT siteIdx s.gt) r.samples)
+      (snvIndices hs snvpos.length) = .ok gts := by
+    apply mapE_total
+    intro siteIdx hmem
+    apply mapE_total
+    intro s hsmem
+    refine ⟨_, (gt_projection siteIdx s.gt _).mpr ⟨?_, rfl⟩⟩
+    intro h hh
+    have := hgt s hsmem h hh
+    rw [(hsite siteIdx hmem).1, hhslen]; omega
+  -- step 3: get_sample_snv_ACP
+  obtain ⟨counts, hcnt⟩ : ∃ counts, mapE (sampleCounts hs.length) r.samples = .ok counts := by
+    apply mapE_total
+    intro s hsmem
+    rw [hhslen]
+    exact sampleCounts_total _ s (hcounts s hsmem)
+  obtain ⟨acp, hacp⟩ : ∃ acp, mapE (fun siteIdx =>
+      mapE (fun sc => sampleSiteACP siteIdx sc.1.gt.length sc.2) (r.samples.zip counts))
+      (snvIndices hs snvpos.length) = .ok acp := by
+    apply mapE_total
+    intro siteIdx hmem
+    apply mapE_total
+    intro sc _
+    obtain ⟨s, o⟩ := sc
+    cases o with
+    | none => exact ⟨none, rfl⟩
+    | some c =>
+      have hno : (siteIdx.take c.length).any (fun a => decide (4 ≤ a)) = false := by
+        rw [Bool.eq_false_iff]
+        intro hcon
+        rw [List.any_eq_true] at hcon
+        obtain ⟨a, ha, h4⟩ := hcon
+        have := (hsite siteIdx hmem).2 a (List.mem_of_mem_take ha)
+        simp at h4; omega
+      simp only [sampleSiteACP, hno, Bool.false_eq_true, if_false]
+      split
+      · exact ⟨none, rfl⟩
+      · exact ⟨_, rfl⟩
+  -- step 4: no site without alternative base
+  have hmono : (List.range snvpos.length).any (fun k => (formatSnvAlleles hs k).2.length == 0) = false := by
+    rw [Bool.eq_false_iff]
+    intro hcon
+    rw [List.any_eq_true] at hcon
+    obtain ⟨k, hk, he⟩ := hcon
+    have := hpoly hs hhs k (List.mem_range.mp hk)
+    simp at he; exact this he
+  -- step 5: depths
+  obtain ⟨dps, hdps⟩ : ∃ dps, depths snvpos.length r.samples = .ok dps := by
+    unfold depths
+    apply mapE_total
+    intro s hsmem
+    cases hd : s.snvdp with
+    | none => exact ⟨_, rfl⟩
+    | some d => exact ⟨d.map some, by simp [hdp s hsmem d hd]⟩
+  refine ⟨blockLines r snvpos hs gts acp dps, ?_, by simp [blockLines]⟩
+  unfold block
+  rw [hsp]
+  simp only [hhs, hgts, hcnt, hacp, hmono, hdps]
+  rfl
+
+/-- non-vacuity: a record satisfying every hypothesis of `block_total_partial` is answered with two lines -/
+example : outcome (block recGood) = 102 := by decide
+
 end MCHap.C20
